@@ -765,14 +765,11 @@ def eval_combine(case, acc=None):
         # reach are marked NaN with nan_default=True), then combine: NaN marks "no data", the counts of the others stay
         from pylife.utils.histogram import rebin_histogram
         lo = float(min(iv.left for h in hs for iv in h.index)) - 1.0
-        hi = float(max(iv.right for h in hs for iv in h.index)) + 1.0
-        nb = int(round(hi - lo))
-        common = pd.IntervalIndex.from_breaks([lo + k for k in range(nb + 1)])
-        shifted = [hs[0]] + [pd.Series(h.to_numpy(), index=pd.IntervalIndex.from_arrays(h.index.left + 1.0 * k, h.index.right + 1.0 * k, name=h.index.name))
-                             for k, h in enumerate(hs[1:], start=1) if True]
         # (the later histograms are shifted by 1, 2, ... so that the inputs do not cover the same classes)
-        hi2 = float(max(iv.right for h in shifted for iv in h.index)) + 1.0
-        common = pd.IntervalIndex.from_breaks([lo + k for k in range(int(round(hi2 - lo)) + 1)])
+        shifted = [hs[0]] + [pd.Series(h.to_numpy(), index=pd.IntervalIndex.from_arrays(h.index.left + 1.0 * k, h.index.right + 1.0 * k, name=h.index.name))
+                             for k, h in enumerate(hs[1:], start=1)]
+        hi = float(max(iv.right for h in shifted for iv in h.index)) + 1.0
+        common = pd.IntervalIndex.from_breaks([lo + k for k in range(int(round(hi - lo)) + 1)])
         rb = _call(site + "/nan-marked-common-binning", lambda: [rebin_histogram(h, common, nan_default=True) for h in shifted], viol, case)
         if rb is not None:
             r2 = _call(site + "/nan-marked-common-binning", lambda: combine_histogram(rb, method="sum"), viol, case)
